@@ -242,7 +242,7 @@ fn judge_variant(world: &World, v: &Variant, pages: &[SearchResult], reference: 
           // a cursor is present: aggregations cover only the documents after the cursor position
           let before: usize = pages[..k].iter().map(|p| p.hits.len()).sum();
           let cands: Vec<usize> = if v.rescore { (1..order.hits.len()).collect() } else { vec![before] };
-          if cands.into_iter().any(|j| explained_by_model(world, pg, order, j, !sort_has_score)) { Some(SIG_CURSOR) } else { None }
+          if cands.into_iter().any(|j| explained_by_model(world, pg, order, j, false) || (!sort_has_score && explained_by_model(world, pg, order, j, true))) { Some(SIG_CURSOR) } else { None }
         } else if !sort_has_score && explained_by_model(world, pg, order, 0, true) {
           Some(SIG_SCORE0)
         } else {
